@@ -110,21 +110,10 @@ Fixpoint ix_opts (fuel : nat) (buf : bytes) (code o e maxopt : Z) (good : bool)
       end
   end.
 
-(* coap_pdu_parse for the three framings; [buf] = the received message, length = len buf *)
-Definition ix_parse (guard : bool) (p : proto) (buf : bytes) : ix_res msg :=
-  let n := len buf in
-  if n =? 0 then IxRej else
-  b0 <- ix_rd buf 0 ;;
-  let hs := header_size p b0 in
-  if n <? hs then IxRej else
-  let used := n - hs in
-  f <- match p with
-       | UDP => h1 <- ix_rd buf 1 ;; h2 <- ix_rd buf 2 ;; h3 <- ix_rd buf 3 ;;
-                if b0 / 64 =? 1 then IxOk ((b0 / 16) mod 4, h1, h2 * 256 + h3) else IxRej
-       | _ => c <- ix_rd buf (hs - 1) ;; IxOk (0, c, 0)
-       end ;;
-  let '(ty, code, mid) := f in
-  let tkl := b0 mod 16 in
+(* coap_pdu_parse_header (token part) + coap_pdu_parse_opt, once the header size [hs] and the
+   header fields are known; used = bytes after the header *)
+Definition ix_body (guard : bool) (buf : bytes) (hs ty code mid tkl : Z) : ix_res msg :=
+  let used := len buf - hs in
   te <- (if tkl <? 13 then IxOk (tkl, 0)
          else if tkl =? 13 then
            if guard && (used <? 1) then IxRej else
@@ -137,10 +126,25 @@ Definition ix_parse (guard : bool) (p : proto) (buf : bytes) : ix_res msg :=
   if (used <? etl) || (tkl =? 15) then IxRej else
   if (code =? 0) && (negb (used =? 0) || negb (etl =? 0)) then IxRej else
   if code =? 0 then IxOk (mkMsg ty code mid [] [] []) else
-  r <- ix_opts (List.length buf) buf code (hs + etl) (used - etl) 0 true ;;
+  r <- ix_opts (Z.to_nat (used - etl)) buf code (hs + etl) (used - etl) 0 true ;;
   let '(os, o, e, good) := r in
   if negb good then IxRej else
   let tok := ix_slice buf (hs + ext) (etl - ext) in
   if 0 <? e then
     if e - 1 =? 0 then IxRej else IxOk (mkMsg ty code mid tok os (ix_slice buf (o + 1) (e - 1)))
   else IxOk (mkMsg ty code mid tok os []).
+
+(* coap_pdu_parse for the three framings; [buf] = the received message, length = len buf *)
+Definition ix_parse (guard : bool) (p : proto) (buf : bytes) : ix_res msg :=
+  let n := len buf in
+  if n =? 0 then IxRej else
+  b0 <- ix_rd buf 0 ;;
+  let hs := header_size p b0 in
+  if n <? hs then IxRej else
+  f <- match p with
+       | UDP => h1 <- ix_rd buf 1 ;; h2 <- ix_rd buf 2 ;; h3 <- ix_rd buf 3 ;;
+                if b0 / 64 =? 1 then IxOk ((b0 / 16) mod 4, h1, h2 * 256 + h3) else IxRej
+       | _ => c <- ix_rd buf (hs - 1) ;; IxOk (0, c, 0)
+       end ;;
+  let '(ty, code, mid) := f in
+  ix_body guard buf hs ty code mid (b0 mod 16).
